@@ -130,6 +130,9 @@ struct checker {
                     pt::set_pix(cv(x, y), one);
                 }
         }
+        // kth_channel_view (compile-time channel) of the same derived view: must use the view's own x step
+        kth_on_derived<0>(d, m);
+        kth_on_derived<pt::nch<R>::value - 1>(d, m);
         // color_converted_view: value of the converted source pixel
         auto ccv = gil::color_converted_view<gil::gray8_pixel_t>(d);
         if (ccv.width() != m.w || ccv.height() != m.h) vh::viol(key("ccv-dims"), vh::cat("word=", m.word()));
@@ -144,6 +147,20 @@ struct checker {
                 }
     }
     template <class W> void channels(W const&, mapping const&, std::false_type) {}
+
+    template <int K, class W> void kth_on_derived(W const& d, mapping const& m) {
+        auto cv = gil::kth_channel_view<K>(d);
+        if (cv.width() != m.w || cv.height() != m.h) { vh::viol(key("kth-dims"), vh::cat("word=", m.word())); return; }
+        for (long y = 0; y < m.h; ++y)
+            for (long x = 0; x < m.w; ++x) {
+                long sx, sy; m.map(x, y, sx, sy);
+                pt::pixid got = pt::id_of(cv(x, y));
+                pt::pixid const& want = s.at(sx, sy);
+                ++n_pix;
+                if (got.n != 1 || got.bitpos[0] != want.bitpos[K])
+                    vh::viol(key("kth-identity"), vh::cat("word=", m.word(), ".kth_channel<", K, "> (", x, ",", y, ") is ", got.str(), " expected channel ", K, " of source(", sx, ",", sy, ")=", want.str()));
+            }
+    }
 };
 
 // kth_channel_view on heterogeneous (packed / bit-aligned) organisations: base view only
